@@ -41,6 +41,13 @@ def run_export_models(out, prop, models, stride=1):
 def check_C19(tier, seed):
     out = Outcome("C19", tier, seed)
     run_export_models(out, "C19", [exp_model("export", {1, 2, 3})])
+    # the read-back clause on large instances (time grids / item lists far longer than any bounded model reaches)
+    cases = [(150, 3), (20, 140)] if tier == "quick" else [(150, 3), (20, 140), (300, 130), (260, 2), (129, 129)]
+    bad = core.replay_parallel(replay_export.run_large_export, cases)
+    out.replayed += len(cases)
+    out.extra["large_instance_exports"] = len(cases)
+    out.judge(core.for_property([({"op": "large_export", "case": c}, p) for c, p in bad], "C19"), "export_large",
+              lambda v, p: {"engine": "export_large", "case": str(v["case"])})
     out.exhaustive = True
     out.assumptions += [
         "systems: subsets of 2, 3 or 5 of five flow templates (names with spaces, '=>', '->', ':' and parentheses that stay distinct after "
